@@ -15,7 +15,7 @@ EXPLANATION = ("compute_cost is proved (mode R) to accumulate the statement's de
                "cache consistent and to leave old entries unchanged - so every query sequence sharing one cache returns exactly what fresh "
                "caches return (induction over the sequence with invariant CacheOK, a lemma over this contract). 'All points are "
                "breakpoints', global RMSE and MIP are covered by the bounded layer (exact rationals).")
-ASSUMPTIONS = ["summary of lf.linear_fit_transform_points: deterministic (uninterpreted); compute_partial_cost is used through a summary (deterministic, >= 0) at call sites, "
+ASSUMPTIONS = ["summary of lf.linear_fit_transform_points: deterministic (uninterpreted) at call sites - that it is the interpolation on the line through the segment's end points is proved in C16 (linear_fit_transform_points#def); compute_partial_cost is used through a summary (deterministic, >= 0) at call sites, "
                "and its five per-metric sums and non-negativity are proved against its body (compute_partial_cost#def, mode R); A-REAL for compute_cost"]
 LEVEL_TEXT = ("Proof of the accumulation formula (divisor, clipping, TSS) and of cache transparency as a contract (consistent cache in => same value "
               "as with a fresh cache, consistent cache out, old entries untouched); bounded exact-rational layer for the per-metric values, "
